@@ -22,82 +22,6 @@ type c09Case struct {
 	Choices  []int  `json:"choices"`
 }
 
-// reactive doubles (managed goroutines of the harness): they answer every request they receive,
-// copying the Via stack; they touch only driver-side sockets and local data.
-
-func c09UDPBackend(addr string) {
-	a, _ := vnet.ResolveUDPAddr("udp", addr)
-	vnet.Fab.DriverMode = true
-	c, err := vnet.ListenUDP("udp", a)
-	vnet.Fab.DriverMode = false
-	if err != nil {
-		panic(err)
-	}
-	vrt.Go(func() {
-		buf := make([]byte, 65536)
-		for {
-			n, _, err := c.ReadFromUDP(buf)
-			if err != nil {
-				return
-			}
-			m, err := ReadWire(buf[:n])
-			if err != nil || !m.IsRequest() {
-				continue
-			}
-			vs, _ := m.ViaStack()
-			if len(vs) == 0 {
-				continue
-			}
-			port := vs[0].Port
-			if port == "" {
-				port = "5060"
-			}
-			to, _ := vnet.ResolveUDPAddr("udp", vs[0].Host+":"+port)
-			c.WriteToUDP(ResponseTo(m, 200, "be").Render(), to)
-		}
-	})
-}
-
-func c09TCPBackend(addr string) {
-	a, _ := vnet.ResolveTCPAddr("tcp", addr)
-	vnet.Fab.DriverMode = true
-	l, err := vnet.ListenTCP("tcp", a)
-	vnet.Fab.DriverMode = false
-	if err != nil {
-		panic(err)
-	}
-	vrt.Go(func() {
-		for {
-			conn, err := l.AcceptTCP()
-			if err != nil {
-				return
-			}
-			vrt.Go(func() {
-				var acc []byte
-				buf := make([]byte, 65536)
-				for {
-					n, err := conn.Read(buf)
-					if err != nil {
-						return
-					}
-					acc = append(acc, buf[:n]...)
-					for {
-						i := bytes.Index(acc, []byte("\r\n\r\n"))
-						if i < 0 {
-							break
-						}
-						m, err := ReadWire(acc[:i+4])
-						acc = acc[i+4:]
-						if err == nil && m.IsRequest() {
-							conn.Write(ResponseTo(m, 200, "be").Render())
-						}
-					}
-				}
-			})
-		}
-	})
-}
-
 func c09Req(id, transport, src, ruriHost string) []byte {
 	return MsgSpec{Method: "OPTIONS", RURI: "sip:bob@svc.example.com", Vias: []string{"SIP/2.0/" + transport + " " + src + ";branch=z9hG4bK" + id}, From: "<sip:" + id + "@ua.example.net>;tag=f", To: "<sip:bob@svc.example.com>",
 		CallID: "c09-" + id, CSeq: "1 OPTIONS"}.Build().Render()
